@@ -85,6 +85,25 @@ pub fn ptrev_to(p: &Pt) -> Value {
 	Value::List(vec![p.y.to_value(), p.x.to_value()])
 }
 
+/// A type that is zero-sized in memory but not on the wire (one index byte).
+#[derive(Clone, Copy, Debug, Default, PartialEq, Eq, PartialOrd, Ord, Encode, Decode, parity_scale_codec::DecodeWithMemTracking, parity_scale_codec::MaxEncodedLen)]
+pub enum ZE {
+	#[default]
+	#[codec(index = 7)]
+	Only,
+}
+impl Subject for ZE {
+	fn shape() -> Shape {
+		Shape::Enum(vec![refmodel::Variant { index: Some(7), fields: vec![] }])
+	}
+	fn from_value(_: &Value) -> Self {
+		ZE::Only
+	}
+	fn to_value(&self) -> Value {
+		Value::Variant(0, vec![])
+	}
+}
+
 /// A newtype deriving `CompactAs`, used as a `#[codec(compact)]` field type.
 #[derive(Clone, Debug, Default, PartialEq, Eq, PartialOrd, Ord, Encode, Decode, parity_scale_codec::CompactAs, parity_scale_codec::DecodeWithMemTracking, parity_scale_codec::MaxEncodedLen)]
 pub struct CA(pub u32);
@@ -186,5 +205,30 @@ pub fn registry() -> Vec<VT> {
 		crate::vt!(Pt, "Pt", "derived", true),
 		crate::vt!(CA, "CA", "derived", true),
 		crate::vt!(CompactOf<CA>, "Compact<CA>", "derived", true),
+		crate::vt!(ZE, "ZE", "derived", true),
+		crate::vt!(Vec<ZE>, "Vec<ZE>", "derived", true),
+		crate::vt!([ZE; 2], "[ZE; 2]", "derived", true),
+		crate::vt!(Box<ZE>, "Box<ZE>", "derived", false),
+		crate::vt!(Option<(ZE, u8)>, "Option<(ZE, u8)>", "derived", false),
+		// none of these may be memory-tracking (see drivers::Untracked); the probe decides
+		crate::vt!(crate::drivers::Untracked, "Untracked", "untracked", false),
+		crate::vt!(std::borrow::Cow<'static, crate::drivers::Untracked>, "Cow<Untracked>", "untracked", false),
+		crate::vt!(Vec<crate::drivers::Untracked>, "Vec<Untracked>", "untracked", false),
+		crate::vt!(Option<crate::drivers::Untracked>, "Option<Untracked>", "untracked", false),
+		crate::vt!(Box<crate::drivers::Untracked>, "Box<Untracked>", "untracked", false),
+		crate::vt!(std::rc::Rc<crate::drivers::Untracked>, "Rc<Untracked>", "untracked", false),
+		crate::vt!(std::sync::Arc<crate::drivers::Untracked>, "Arc<Untracked>", "untracked", false),
+		crate::vt!((crate::drivers::Untracked, u8), "(Untracked, u8)", "untracked", false),
+		crate::vt!([crate::drivers::Untracked; 2], "[Untracked; 2]", "untracked", false),
+		crate::vt!(Result<u8, crate::drivers::Untracked>, "Result<u8, Untracked>", "untracked", false),
+		crate::vt!(std::collections::BTreeMap<u8, crate::drivers::Untracked>, "BTreeMap<u8, Untracked>", "untracked", false),
+		crate::vt!(std::collections::BTreeSet<crate::drivers::Untracked>, "BTreeSet<Untracked>", "untracked", false),
+		crate::vt!(std::collections::LinkedList<crate::drivers::Untracked>, "LinkedList<Untracked>", "untracked", false),
+		crate::vt!(std::collections::VecDeque<crate::drivers::Untracked>, "VecDeque<Untracked>", "untracked", false),
+		crate::vt!(std::ops::Range<crate::drivers::Untracked>, "Range<Untracked>", "untracked", false),
+		// maps and sets with large elements: the node-count estimate matters
+		crate::vt!(std::collections::BTreeSet<[u8; 100]>, "BTreeSet<[u8; 100]>", "bigtree", false),
+		crate::vt!(std::collections::BTreeMap<u16, [u8; 200]>, "BTreeMap<u16, [u8; 200]>", "bigtree", false),
+		crate::vt!(std::collections::BTreeMap<u8, u128>, "BTreeMap<u8, u128> (sizes)", "bigtree", false),
 	]
 }
